@@ -149,6 +149,11 @@ func checkC11(tier, replay string) int {
 								// nothing may be installed without it
 								cfgs = append(cfgs, c11Config{unpriv, nnpScript{NNP: nnp, Flags: fl, Choice: "stay", LoaderMain: lm, DenyPrctl: true}})
 							}
+							if nnp && fl < 2 && straceWorks() {
+								// second schedule point: the thread is held inside prctl(2) by a tracer while the runtime hands its P to
+								// a busy goroutine; an unpinned loader resumes on another thread
+								cfgs = append(cfgs, c11Config{unpriv, nnpScript{NNP: nnp, Flags: fl, Choice: "prctl-delay", LoaderMain: lm}})
+							}
 							for _, idle := range []int{0, 6} {
 								for _, wire := range []int{0, 12} {
 									cfgs = append(cfgs, c11Config{unpriv, nnpScript{NNP: nnp, Flags: fl, Choice: "move", IdleMs: idle, WireIdle: wire, LoaderMain: lm}})
@@ -160,13 +165,16 @@ func checkC11(tier, replay string) int {
 			}
 		}
 	}
-	var children, moved, impossible, movedOld, movedNew, controlOK int64
+	var children, moved, impossible, movedOld, movedNew, controlOK, delayCtl, delayMoved, delayStayed int64
 	parallelFor(len(cfgs), func(i int) {
 		c := cfgs[i]
 		var rep nnpReport
 		env := []string{}
 		if c.Script.LoaderMain {
 			env = append(env, "VERIF_LOCK_MAIN=1")
+		}
+		if c.Script.Choice == "prctl-delay" {
+			env = append(env, "VERIF_PRCTL_DELAY=1")
 		}
 		sig, exit, se, err := runChildJSON(60*time.Second, c.Unpriv, env, "nnp", c.Script, &rep)
 		atomic.AddInt64(&children, 1)
@@ -177,6 +185,16 @@ func checkC11(tier, replay string) int {
 			return
 		}
 		cls := fmt.Sprintf("%s:nnp=%v:%s", map[bool]string{true: "unpriv", false: "priv"}[c.Unpriv], c.Script.NNP, c.Script.Choice)
+		if c.Script.Choice == "prctl-delay" {
+			if rep.ControlMoved {
+				atomic.AddInt64(&delayCtl, 1)
+			}
+			if rep.Moved {
+				atomic.AddInt64(&delayMoved, 1)
+			} else if rep.SeamCalls > 0 {
+				atomic.AddInt64(&delayStayed, 1)
+			}
+		}
 		if c.Script.Choice == "move" {
 			if rep.ControlMoved {
 				atomic.AddInt64(&controlOK, 1)
@@ -253,6 +271,9 @@ func checkC11(tier, replay string) int {
 	ctx.Cov["moved_to_thread_born_during_load"] = movedNew
 	ctx.Cov["schedules_where_migration_is_impossible_because_loader_is_wired_to_its_thread"] = impossible
 	ctx.Cov["children_in_which_the_migration_manoeuvre_worked_on_an_unpinned_control_goroutine"] = controlOK
+	ctx.Cov["prctl_held_by_tracer:children_in_which_an_unpinned_control_goroutine_resumed_on_another_thread"] = delayCtl
+	ctx.Cov["prctl_held_by_tracer:loader_resumed_on_another_thread"] = delayMoved
+	ctx.Cov["prctl_held_by_tracer:loader_stayed_on_its_thread"] = delayStayed
 	// "requested" also means requested in a configuration: the documented keys of a Filter (no_new_privs, flag, policy) read
 	// through the configuration loader must arrive in the fields LoadFilter looks at
 	cfgForms := 0
@@ -293,7 +314,7 @@ func checkC11(tier, replay string) int {
 		}
 	}
 	ctx.Cov["filters_read_through_the_configuration_loader"] = cfgForms
-	ctx.Cov["rule"] = "states = {privileged, uid 65534} x NoNewPrivs x flags {0,tsync,log,tsync|log,4 (SPEC_ALLOW),5} x loader on main / other goroutine x thread placement at the single seam between prctl(2) and seccomp(2): stay, or forced migration (a helper goroutine takes over and wires itself to the loader's thread so that the runtime must resume the loader on another thread; with and without a pool of idle threads / with all idle threads wired); the manoeuvre is first shown to work on an unpinned control goroutine in the same process; each configuration runs the real LoadFilter in a fresh child; observed: result, tid and no_new_privs bit at the seam, per-thread NoNewPrivs/Seccomp before and after; plus every history of two (thorough: three) loads over two threads x {A,B} x NoNewPrivs x tsync in one process, privileged and unprivileged, judged step by step on /proc (the bit is per thread: a second load on another thread must set it again); plus a Filter written with the documented keys (no_new_privs x 4 flag words, YAML and JSON text) read through the ucfg loader: the fields LoadFilter looks at must hold what the text says"
+	ctx.Cov["rule"] = "states = {privileged, uid 65534} x NoNewPrivs x flags {0,tsync,log,tsync|log,4 (SPEC_ALLOW),5} x loader on main / other goroutine x thread placement at the single seam between prctl(2) and seccomp(2): stay, or forced migration (a helper goroutine takes over and wires itself to the loader's thread so that the runtime must resume the loader on another thread; with and without a pool of idle threads / with all idle threads wired), or - for NoNewPrivs loads with flags 0 and tsync, when strace is available - a second schedule point at the prctl itself (a tracer holds every prctl(2) in the kernel for 60 ms while the process has one P and a goroutine that never blocks, so that an unpinned goroutine resumes on another thread when the call returns); the manoeuvre is first shown to work on an unpinned control goroutine in the same process; each configuration runs the real LoadFilter in a fresh child; observed: result, tid and no_new_privs bit at the seam, per-thread NoNewPrivs/Seccomp before and after; plus every history of two (thorough: three) loads over two threads x {A,B} x NoNewPrivs x tsync in one process, privileged and unprivileged, judged step by step on /proc (the bit is per thread: a second load on another thread must set it again); plus a Filter written with the documented keys (no_new_privs x 4 flag words, YAML and JSON text) read through the ucfg loader: the fields LoadFilter looks at must hold what the text says"
 	ctx.Assumptions = []string{"the only scheduling fact that matters between prctl and seccomp is which OS thread executes seccomp(2); instruction-level preemption inside the runtime is not enumerated", "if the loader is wired to its thread, migration is impossible and the property holds by construction (counted separately)"}
 	if replay != "" {
 		return finishReplay(ctx)
